@@ -169,7 +169,7 @@ func runDaemonReqs(r *run) error {
 	if r.tier == "thorough" {
 		n = 4000
 	}
-	flagPool := []string{"--server", "--sender", "-r", "-a", "-n", "--delete", "-logDtpr", "-vvv", "--dry-run", "-c", "-I", ".", ".", "--no-such-option", "-e.iLsfxC", "--daemon", "--devices", "--exclude=x", "-f", "- y", "--timeout=5", "--bwlimit=0"}
+	flagPool := []string{"--server", "--sender", "-r", "-a", "-n", "--delete", "-logDtpr", "-vvv", "--dry-run", "-c", "-I", ".", ".", "--no-such-option", "-e.iLsfxC", "--devices", "--exclude=x", "-f", "- y", "--timeout=5", "--bwlimit=0"}
 	var wg sync.WaitGroup
 	var mu sync.Mutex
 	for i := 0; i < n; i++ {
@@ -251,6 +251,10 @@ func runDaemonReqs(r *run) error {
 				}
 			}
 			r.count("daemonreq/" + strings.SplitN(obs, ":", 2)[0])
+			if res.Outcome == "died" {
+				r.oracleFail(id, "the daemon process crashed or exited while handling the request ("+res.Err+")",
+					map[string]any{"modules": mods, "requested": req, "flags": flags, "payload_hex": clipStr(sp.DaemonReq.Payload, 400), "stderr": tailStr(res.Stderr, 3000)})
+			}
 			fl := make([]string, len(flags))
 			for i, f := range flags {
 				fl[i] = hx(f)
